@@ -168,6 +168,18 @@ struct PParser
             return reg.tsd(k, v);
         }
         if (eat("TSS(")) { const auto *e = reg.value_type(ident()); eat(")"); return reg.tss(e); }
+        if (eat("TSB("))
+        {
+            // nominal bundles: Quote and Spread have IDENTICAL field lists, U is the un-named bundle with that field list,
+            // Trade has different fields
+            const std::string name = ident();
+            eat(")");
+            const auto *ti = reg.ts(reg.value_type("int"));
+            std::vector<std::pair<std::string, const TSValueTypeMetaData *>> f{{"bid", ti}, {"ask", ti}};
+            if (name == "Trade") f = {{"px", reg.ts(reg.value_type("float"))}};
+            if (name == "U") return reg.un_named_tsb(f);
+            return reg.tsb(name, f);
+        }
         if (eat("REF(")) { const auto *t = concrete(); eat(")"); return reg.ref(t); }
         if (eat("TS(")) { const auto *v = reg.value_type(ident()); eat(")"); return reg.ts(v); }
         throw std::runtime_error("bad schema at " + s.substr(i));
